@@ -1,5 +1,6 @@
 SPECIFICATION Spec
 CONSTANTS MaxOps = 3
           AnswersLate = TRUE
+          LibraryGivesUp = "never"
 INVARIANT SessionOfThisLogin
 CHECK_DEADLOCK FALSE
